@@ -1,6 +1,6 @@
 (** Proofs about the balancing model (C10, C11). *)
 From Cooler Require Import Model.Balance.
-From Coq Require Import Permutation Setoid Morphisms Lia Lqa ZifyBool.
+From Coq Require Import Permutation Setoid Morphisms Lia Lqa ZifyBool Sorting.Sorted.
 Open Scope Z_scope.
 
 (** * 1. Spans cover the pixel table exactly once (C11) *)
@@ -1470,4 +1470,637 @@ Proof.
   split; [vm_compute; discriminate|].
   split; [unfold InR; lia|]. split; [unfold InR; lia|].
   vm_compute. reflexivity.
+Qed.
+
+(** * 7. Bin masks: each documented filter as an exact predicate (C10.3) *)
+Lemma qnth_mask {A} : forall (cond : A -> bool) (aux : list A) (d : A) (b : list Q) i,
+  length aux = length b -> (0 <= i < zlen b)%Z ->
+  qnth (map (fun p => if cond (fst p) then 0 else snd p) (combine aux b)) i
+  = if cond (nth (Z.to_nat i) aux d) then 0 else qnth b i.
+Proof.
+  intros cond aux d b i Hl Hi. unfold qnth.
+  assert (Hk : (Z.to_nat i < length b)%nat) by (unfold zlen in Hi; lia).
+  revert Hk. generalize (Z.to_nat i) as k. clear Hi. revert b Hl.
+  induction aux as [|x aux IH]; intros b Hl k Hk; destruct b as [|y b]; simpl in *; try discriminate; try lia.
+  destruct k; simpl; [reflexivity|]. apply IH; [congruence | lia].
+Qed.
+
+Lemma length_mask {A} : forall (f : A * Q -> Q) (aux : list A) (b : list Q),
+  length aux = length b -> length (map f (combine aux b)) = length b.
+Proof. intros. rewrite map_length, combine_length. lia. Qed.
+
+Lemma mask_step {A} : forall (cond : A -> bool) (aux : list A) (d : A) (b : list Q) i,
+  length aux = length b -> (0 <= i < zlen b)%Z ->
+  (qnth (map (fun p => if cond (fst p) then 0 else snd p) (combine aux b)) i == 0 <->
+   cond (nth (Z.to_nat i) aux d) = true \/ qnth b i == 0).
+Proof.
+  intros cond aux d b i Hl Hi. rewrite (qnth_mask cond aux d b i Hl Hi).
+  destruct (cond (nth (Z.to_nat i) aux d)); split; intros H; auto.
+  - reflexivity.
+  - destruct H as [H|H]; [discriminate | assumption].
+Qed.
+
+Lemma mask_nonneg {A} : forall (cond : A -> bool) (aux : list A) (b : list Q),
+  length aux = length b -> NonNeg b ->
+  NonNeg (map (fun p => if cond (fst p) then 0 else snd p) (combine aux b)).
+Proof.
+  intros cond aux b Hl Hb i. unfold qnth. generalize (Z.to_nat i) as k. revert b Hl Hb.
+  induction aux as [|x aux IH]; intros b Hl Hb k; destruct b as [|y b]; simpl in *; try discriminate.
+  - destruct k; apply Qle_refl.
+  - destruct k; simpl.
+    + destruct (cond x); [apply Qle_refl | apply (Hb 0%Z)].
+    + apply IH; [congruence|]. intros j. specialize (Hb (Z.of_nat (S (Z.to_nat j)))).
+      unfold qnth in *. rewrite Nat2Z.id in Hb. exact Hb.
+Qed.
+
+Lemma nth_zrange : forall n i d, (0 <= i < Z.of_nat n)%Z -> nth (Z.to_nat i) (zrange 0 n) d = i.
+Proof.
+  intros n i d Hi. pose proof (nth_zrange_map (fun x => x) n (Z.to_nat i) d ltac:(lia)) as H.
+  rewrite map_id in H. rewrite H. lia.
+Qed.
+
+Lemma length_zrange : forall n, length (zrange 0 n) = n.
+Proof. intros. unfold zrange. now rewrite map_length, seq_length. Qed.
+
+Section Masks.
+  Variables (o : opts) (n : nat) (chroms offsets : list Z) (px : list pixel).
+  Let spans := balance_spans (zlen px) (o_chunk o).
+  Let bf := base_filters o chroms.
+  Let marg_nnz := marg_of n spans (f_binarize :: bf) px.
+  Let marg := marg_of n spans bf px.
+  Let nm := norm_marg marg offsets.
+  Let c4 := mad_cutoff4 (optpos nm) (o_mad o).
+  Hypothesis Hx0 : length (x0_bias n (o_x0 o)) = n.
+  Hypothesis Hnm : length nm = n.
+
+  Definition masked_nnz (i : Z) : Prop := (0 < o_nnz o)%Z /\ qnth marg_nnz i < inject_Z (o_nnz o).
+  Definition masked_count (i : Z) : Prop := o_count o <> 0%Z /\ qnth marg i < inject_Z (o_count o).
+  Definition masked_mad (i : Z) : Prop := (0 < o_mad o)%Z /\ mad_masked c4 (nth (Z.to_nat i) nm None) = true.
+
+  (** C10.3  a bin enters the loop with weight zero iff its initial weight is zero/NaN or one of the four
+      documented filters excludes it *)
+  Theorem mask_rules : forall i, InR n i ->
+    (qnth (initial_bias o n chroms offsets px) i == 0 <->
+       qnth (x0_bias n (o_x0 o)) i == 0 \/ masked_nnz i \/ masked_count i \/ masked_mad i \/ In i (o_black o)).
+  Proof.
+    intros i Hi. unfold initial_bias. fold spans bf. fold marg_nnz. fold marg. fold nm.
+    set (w0 := x0_bias n (o_x0 o)).
+    assert (L0 : length w0 = n) by exact Hx0.
+    set (w1 := if (0 <? o_nnz o)%Z then mask_lt marg_nnz (inject_Z (o_nnz o)) w0 else w0).
+    set (w2 := if (o_count o =? 0)%Z then w1 else mask_lt marg (inject_Z (o_count o)) w1).
+    set (w3 := if (0 <? o_mad o)%Z then mask_mad nm (o_mad o) w2 else w2).
+    assert (Lm1 : length marg_nnz = n) by apply length_marg_of.
+    assert (Lm : length marg = n) by apply length_marg_of.
+    assert (L1 : length w1 = n).
+    { unfold w1. destruct (0 <? o_nnz o)%Z; [|exact L0]. unfold mask_lt. rewrite length_mask; congruence. }
+    assert (L2 : length w2 = n).
+    { unfold w2. destruct (o_count o =? 0)%Z; [exact L1|]. unfold mask_lt. rewrite length_mask; congruence. }
+    assert (L3 : length w3 = n).
+    { unfold w3. destruct (0 <? o_mad o)%Z; [|exact L2]. unfold mask_mad. rewrite length_mask; congruence. }
+    assert (R : forall w : list Q, length w = n -> (0 <= i < zlen w)%Z) by (intros w Hw; unfold zlen, InR in *; lia).
+    (* blacklist *)
+    unfold mask_black, enumerate.
+    rewrite (mask_step (fun x => existsb (Z.eqb x) (o_black o)) (zrange 0 (length w3)) 0%Z w3 i)
+      by (try apply length_zrange; now apply R).
+    rewrite nth_zrange by (rewrite L3; exact Hi).
+    assert (Eb : existsb (Z.eqb i) (o_black o) = true <-> In i (o_black o)).
+    { rewrite existsb_exists. split; [intros [x [Hx He]]; apply Z.eqb_eq in He; rewrite He; exact Hx | intros H; exists i; split; [assumption | apply Z.eqb_refl]]. }
+    rewrite Eb.
+    (* MAD *)
+    assert (E3 : qnth w3 i == 0 <-> masked_mad i \/ qnth w2 i == 0).
+    { unfold w3, masked_mad. destruct (0 <? o_mad o)%Z eqn:Em.
+      - unfold mask_mad. fold c4. rewrite (mask_step (mad_masked c4) nm None w2 i) by (try congruence; now apply R).
+        apply Z.ltb_lt in Em. tauto.
+      - apply Z.ltb_ge in Em. split; [tauto | intros [[H _]|H]; [lia | assumption]]. }
+    (* min_count *)
+    assert (E2 : qnth w2 i == 0 <-> masked_count i \/ qnth w1 i == 0).
+    { unfold w2, masked_count. destruct (o_count o =? 0)%Z eqn:Ec.
+      - apply Z.eqb_eq in Ec. split; [tauto | intros [[H _]|H]; [congruence | assumption]].
+      - apply Z.eqb_neq in Ec. unfold mask_lt.
+        rewrite (mask_step (fun x => Qltb x (inject_Z (o_count o))) marg 0 w1 i) by (try congruence; now apply R).
+        rewrite Qltb_true. fold (qnth marg i). tauto. }
+    (* min_nnz *)
+    assert (E1 : qnth w1 i == 0 <-> masked_nnz i \/ qnth w0 i == 0).
+    { unfold w1, masked_nnz. destruct (0 <? o_nnz o)%Z eqn:En.
+      - apply Z.ltb_lt in En. unfold mask_lt.
+        rewrite (mask_step (fun x => Qltb x (inject_Z (o_nnz o))) marg_nnz 0 w0 i) by (try congruence; apply R; exact L0).
+        rewrite Qltb_true. fold (qnth marg_nnz i). tauto.
+      - apply Z.ltb_ge in En. split; [tauto | intros [[H _]|H]; [lia | assumption]]. }
+    rewrite E3, E2, E1. tauto.
+  Qed.
+
+  Theorem initial_bias_length : length (initial_bias o n chroms offsets px) = n.
+  Proof.
+    unfold initial_bias. fold spans bf. fold marg_nnz. fold marg. fold nm.
+    assert (Lm1 : length marg_nnz = n) by apply length_marg_of.
+    assert (Lm : length marg = n) by apply length_marg_of.
+    set (w0 := x0_bias n (o_x0 o)).
+    assert (L0 : length w0 = n) by exact Hx0.
+    set (w1 := if (0 <? o_nnz o)%Z then mask_lt marg_nnz (inject_Z (o_nnz o)) w0 else w0).
+    set (w2 := if (o_count o =? 0)%Z then w1 else mask_lt marg (inject_Z (o_count o)) w1).
+    set (w3 := if (0 <? o_mad o)%Z then mask_mad nm (o_mad o) w2 else w2).
+    assert (L1 : length w1 = n).
+    { unfold w1. destruct (0 <? o_nnz o)%Z; [|exact L0]. unfold mask_lt. rewrite length_mask; congruence. }
+    assert (L2 : length w2 = n).
+    { unfold w2. destruct (o_count o =? 0)%Z; [exact L1|]. unfold mask_lt. rewrite length_mask; congruence. }
+    assert (L3 : length w3 = n).
+    { unfold w3. destruct (0 <? o_mad o)%Z; [|exact L2]. unfold mask_mad. rewrite length_mask; congruence. }
+    unfold mask_black, enumerate. rewrite length_mask; [exact L3 | apply length_zrange].
+  Qed.
+
+  Theorem initial_bias_nonneg : NonNeg (x0_bias n (o_x0 o)) -> NonNeg (initial_bias o n chroms offsets px).
+  Proof.
+    intros H0. unfold initial_bias. fold spans bf. fold marg_nnz. fold marg. fold nm.
+    assert (Lm1 : length marg_nnz = n) by apply length_marg_of.
+    assert (Lm : length marg = n) by apply length_marg_of.
+    set (w0 := x0_bias n (o_x0 o)) in *.
+    assert (L0 : length w0 = n) by exact Hx0.
+    set (w1 := if (0 <? o_nnz o)%Z then mask_lt marg_nnz (inject_Z (o_nnz o)) w0 else w0).
+    set (w2 := if (o_count o =? 0)%Z then w1 else mask_lt marg (inject_Z (o_count o)) w1).
+    set (w3 := if (0 <? o_mad o)%Z then mask_mad nm (o_mad o) w2 else w2).
+    assert (L1 : length w1 = n /\ NonNeg w1).
+    { unfold w1. destruct (0 <? o_nnz o)%Z; [|split; [exact L0 | exact H0]]. unfold mask_lt.
+      split; [rewrite length_mask; congruence | apply (mask_nonneg (fun x => Qltb x (inject_Z (o_nnz o)))); [congruence | exact H0]]. }
+    destruct L1 as [L1 N1].
+    assert (L2 : length w2 = n /\ NonNeg w2).
+    { unfold w2. destruct (o_count o =? 0)%Z; [split; assumption|]. unfold mask_lt.
+      split; [rewrite length_mask; congruence | apply (mask_nonneg (fun x => Qltb x (inject_Z (o_count o)))); [congruence | exact N1]]. }
+    destruct L2 as [L2 N2].
+    assert (L3 : length w3 = n /\ NonNeg w3).
+    { unfold w3. destruct (0 <? o_mad o)%Z; [|split; assumption]. unfold mask_mad.
+      split; [rewrite length_mask; congruence | apply (mask_nonneg (mad_masked c4)); [congruence | exact N2]]. }
+    destruct L3 as [L3 N3].
+    unfold mask_black, enumerate. apply (mask_nonneg (fun x => existsb (Z.eqb x) (o_black o))); [apply length_zrange | exact N3].
+  Qed.
+End Masks.
+
+Lemma length_norm_chrom : forall marg lohi, length (norm_chrom marg lohi) = length (slice marg (fst lohi) (snd lohi)).
+Proof. intros. unfold norm_chrom. destruct (median _); now rewrite map_length. Qed.
+
+Lemma length_concat_map_eq {A B C} : forall (f : A -> list B) (g : A -> list C) l,
+  (forall x, length (f x) = length (g x)) -> length (concat (map f l)) = length (concat (map g l)).
+Proof. intros f g l H. induction l as [|x l IH]; simpl; [reflexivity|]. now rewrite !app_length, H, IH. Qed.
+
+(** chromosome offsets that tile the bin table: norm_marg keeps the length *)
+Lemma length_norm_marg : forall n marg offsets, length marg = n ->
+  Chain 0 (combine (removelast offsets) (tl offsets)) (Z.of_nat n) ->
+  length (norm_marg marg offsets) = n.
+Proof.
+  intros n marg offsets Hl Hc. unfold norm_marg.
+  rewrite (length_concat_map_eq _ (fun sp => slice marg (fst sp) (snd sp)) _ (length_norm_chrom marg)).
+  rewrite (chain_concat marg 0 _ _ Hc) by lia. rewrite slice_all; [assumption | unfold zlen; lia].
+Qed.
+
+(** * 8. The whole genome-wide run of the model: NaN exactly on masked bins or when there is no data *)
+Theorem balance_gw_nan_set : forall o n chroms offsets px rs,
+  o_cis o = false -> o_trans o = false -> chunk_ok (o_chunk o) -> good_px n px = true ->
+  length (x0_bias n (o_x0 o)) = n -> NonNeg (x0_bias n (o_x0 o)) ->
+  Chain 0 (combine (removelast offsets) (tl offsets)) (Z.of_nat n) ->
+  balance o n chroms offsets px = Some rs ->
+  let b0 := initial_bias o n chroms offsets px in
+  let F := Fmat (base_filters o chroms) px in
+  exists r, rs = [r] /\
+    forall i, InR n i ->
+      (onth (c_bias r) i = None <->
+         AllZero F n b0 \/ qnth (x0_bias n (o_x0 o)) i == 0 \/ masked_nnz o n chroms px i \/
+         masked_count o n chroms px i \/ masked_mad o n chroms offsets px i \/ In i (o_black o)) /\
+      (forall x, onth (c_bias r) i = Some x -> 0 < x).
+Proof.
+  intros o n chroms offsets px rs Hcis Htr Hc Hg Hx0 Hx0n Hoff Hbal b0 F.
+  assert (Hnm : length (norm_marg (marg_of n (balance_spans (zlen px) (o_chunk o)) (base_filters o chroms) px) offsets) = n).
+  { apply length_norm_marg; [apply length_marg_of | assumption]. }
+  pose proof (initial_bias_length o n chroms offsets px Hx0 Hnm) as Lb.
+  pose proof (initial_bias_nonneg o n chroms offsets px Hx0 Hnm Hx0n) as Nb.
+  unfold balance in Hbal. rewrite Hcis, Htr in Hbal. fold b0 in Hbal, Lb, Nb.
+  destruct (ic_loop _ (o_tol o) (o_iters o) b0) as [[[[bb s] v] k]|] eqn:E; [|discriminate].
+  inversion Hbal; subst rs. eexists. split; [reflexivity|]. intros i Hi. simpl.
+  destruct (gw_nan_set n (o_chunk o) (base_filters o chroms) px Hc Hg (keyfix_base_filters o chroms)
+              (datnn_base_filters o chroms) (o_tol o) (o_iters o) b0 bb s v k i Lb Nb E Hi) as [H1 H2].
+  split.
+  - rewrite H1. unfold b0 at 2. rewrite (mask_rules o n chroms offsets px Hx0 Hnm i Hi). reflexivity.
+  - intros x Hx. now destruct (H2 x Hx).
+Qed.
+
+Local Open Scope Z_scope.
+
+(** * 9. cis-only mode: the per-chromosome pixel range suffices and gives the chromosome's own sub-matrix *)
+
+(** generalised schedule invariance: the spans read back any sub-table [sub] *)
+Lemma marg_schedule_invariant_sub : forall n spans fs (px sub : list pixel) rs i,
+  concat (map (get_chunk px) spans) = sub ->
+  Permutation rs (marg_chunks n spans fs px) ->
+  0 <= i < Z.of_nat n ->
+  (qnth (reduce_add n rs) i == sumQ (map (pcontrib i fs) sub))%Q.
+Proof.
+  intros n spans fs px sub rs i Hcov Hperm Hi. unfold reduce_add.
+  assert (Hlen : Forall (fun r => length r = n) rs).
+  { rewrite Forall_forall. intros r Hr.
+    apply (Permutation_in _ Hperm) in Hr. unfold marg_chunks in Hr.
+    rewrite in_map_iff in Hr. destruct Hr as [sp [<- _]]. apply length_marginalize. }
+  rewrite (qnth_reduce n) by (auto; unfold zeros; now rewrite repeat_length).
+  rewrite qnth_zeros.
+  pose proof (reduce_perm_invariant Qeq Qplus 0%Q Qplus_assoc Qplus_comm Qplus_0_l
+               pixel (pcontrib i fs) (map (get_chunk px) spans)
+               (map (fun r => qnth r i) rs) (map (fun r => qnth r i) (marg_chunks n spans fs px)) 0%Q) as H.
+  rewrite H.
+  - rewrite Hcov. unfold msum. fold (sumQ (map (pcontrib i fs) sub)). ring.
+  - now apply Permutation_map.
+  - unfold marg_chunks. rewrite !map_map.
+    clear - Hi. induction spans as [|sp spans IH]; simpl; constructor; [|exact IH].
+    now apply chunk_result_at.
+Qed.
+
+(** rows sorted: the pixels of rows < t are a prefix *)
+Definition rows_sorted (px : list pixel) : Prop := StronglySorted Z.le (map row px).
+
+Lemma sorted_filter_split : forall px t, rows_sorted px ->
+  px = filter (fun p => row p <? t) px ++ filter (fun p => negb (row p <? t)) px.
+Proof.
+  induction px as [|x l IH]; intros t Hs; [reflexivity|].
+  unfold rows_sorted in Hs. simpl in Hs. inversion Hs as [|? ? Hl Hx]; subst.
+  simpl. destruct (Z.ltb_spec (row x) t) as [Hlt|Hge]; simpl.
+  - f_equal. now apply IH.
+  - assert (E1 : filter (fun p => row p <? t) l = []).
+    { rewrite Forall_map in Hx. clear - Hx Hge. induction l as [|y l IHl]; [reflexivity|]. inversion Hx; subst. simpl.
+      destruct (Z.ltb_spec (row y) t); [lia | auto]. }
+    assert (E2 : filter (fun p => negb (row p <? t)) l = l).
+    { rewrite Forall_map in Hx. clear - Hx Hge. induction l as [|y l IHl]; [reflexivity|]. inversion Hx; subst. simpl.
+      destruct (Z.ltb_spec (row y) t); [lia | simpl; f_equal; auto]. }
+    now rewrite E1, E2.
+Qed.
+
+Lemma slice_prefix_rows : forall px t, rows_sorted px ->
+  slice px 0 (bin1_offset px t) = filter (fun p => row p <? t) px /\
+  slice px (bin1_offset px t) (zlen px) = filter (fun p => negb (row p <? t)) px.
+Proof.
+  intros px t Hs. pose proof (sorted_filter_split px t Hs) as E. unfold bin1_offset, slice, zlen.
+  set (A := filter (fun p => row p <? t) px) in *. set (B := filter (fun p => negb (row p <? t)) px) in *.
+  rewrite Z.sub_0_r, !Nat2Z.id. simpl skipn. split.
+  - rewrite E at 1. rewrite firstn_app, Nat.sub_diag, firstn_all. simpl. now rewrite app_nil_r.
+  - rewrite E at 2. rewrite skipn_app, Nat.sub_diag, skipn_all. simpl.
+    replace (Z.to_nat (Z.of_nat (length px) - Z.of_nat (length A))) with (length B).
+    + apply firstn_all.
+    + rewrite E at 1. rewrite app_length. lia.
+Qed.
+
+Definition BlockSep (chroms : list Z) (n : nat) (lo hi : Z) : Prop :=
+  forall a b, lo <= a < hi -> 0 <= b < Z.of_nat n -> (b < lo \/ hi <= b) -> chrom_of chroms a <> chrom_of chroms b.
+
+Lemma cis_dat_zero : forall o chroms v a b x, o_cis o = true -> chrom_of chroms a <> chrom_of chroms b ->
+  (dat (pipe1 (base_filters o chroms ++ [f_times v]) ((a, b), x)) == 0)%Q.
+Proof.
+  intros o chroms v a b x Hcis Hne.
+  assert (E : f_zero_trans chroms ((a, b), x) = ((a, b), 0%Q)).
+  { unfold f_zero_trans, b1, b2. simpl. destruct (Z.eqb_spec (chrom_of chroms a) (chrom_of chroms b)); [contradiction | reflexivity]. }
+  unfold base_filters. rewrite Hcis.
+  destruct (o_diags o =? 0); unfold pipe1; simpl; rewrite E.
+  - unfold f_times, dat. simpl. ring.
+  - unfold f_zero_diags, b1, b2. simpl. destruct (_ <? _); unfold f_times, dat; simpl; ring.
+Qed.
+
+Lemma keyfix_all : forall o chroms v, Forall keyfix (base_filters o chroms ++ [f_times v]).
+Proof.
+  intros. apply Forall_app. split; [apply keyfix_base_filters|]. constructor; [apply keyfix_times | constructor].
+Qed.
+
+Lemma cis_contrib_outside : forall o chroms n lo hi v (p : pixel) i, o_cis o = true -> BlockSep chroms n lo hi ->
+  row p <= col p -> 0 <= row p -> col p < Z.of_nat n ->
+  ~ (lo <= row p < hi) -> lo <= i < hi ->
+  (pcontrib i (base_filters o chroms ++ [f_times v]) p == 0)%Q.
+Proof.
+  intros o chroms n lo hi v p i Hcis Hsep Hu H0 Hn Hout Hi.
+  unfold pcontrib, contrib.
+  pose proof (pipe1_keyfix _ (init1 p) (keyfix_all o chroms v)) as Hk.
+  set (w := pipe1 (base_filters o chroms ++ [f_times v]) (init1 p)) in *.
+  assert (E1 : b1 w = row p) by (unfold b1; rewrite Hk; reflexivity).
+  assert (E2 : b2 w = col p) by (unfold b2; rewrite Hk; reflexivity).
+  rewrite E1, E2.
+  destruct (Z.eqb_spec (row p) i) as [Heq|Hne]; [exfalso; lia|].
+  destruct (Z.eqb_spec (col p) i) as [Hci|Hci]; simpl; [|ring].
+  destruct (Z.eqb_spec (row p) (col p)) as [Hrc|Hrc]; simpl; [ring|].
+  assert (Hz : (dat w == 0)%Q).
+  { unfold w. destruct p as [[a b] x]. unfold init1. simpl fst. simpl snd.
+    unfold row, col in *. simpl in *.
+    apply cis_dat_zero; [assumption|]. intro Heq. symmetry in Heq. revert Heq.
+    apply Hsep; lia. }
+  rewrite Hz. ring.
+Qed.
+
+Lemma filter_length_le {A} : forall (f g : A -> bool) l, (forall x, f x = true -> g x = true) ->
+  (length (filter f l) <= length (filter g l))%nat.
+Proof.
+  intros f g l H. induction l as [|x l IH]; simpl; [lia|].
+  destruct (f x) eqn:Ef; [rewrite (H x Ef); simpl; lia|]. destruct (g x); simpl; lia.
+Qed.
+
+Lemma bin1_offset_mono : forall px a b, a <= b -> bin1_offset px a <= bin1_offset px b.
+Proof.
+  intros px a b Hab. unfold bin1_offset, zlen. apply inj_le. apply filter_length_le. intros x H.
+  apply Z.ltb_lt in H. apply Z.ltb_lt. lia.
+Qed.
+
+Lemma bin1_offset_bounds : forall px a, 0 <= bin1_offset px a <= zlen px.
+Proof.
+  intros. unfold bin1_offset, zlen. split; [lia|]. apply inj_le.
+  induction px as [|x l IH]; simpl; [lia|]. destruct (row x <? a); simpl; lia.
+Qed.
+
+Lemma good_px_forall : forall n px, good_px n px = true ->
+  Forall (fun p => row p <= col p /\ 0 <= row p /\ col p < Z.of_nat n) px.
+Proof.
+  intros n px H. unfold good_px in H. rewrite !andb_true_iff in H. destruct H as [[Hu Hr] _].
+  unfold upper_b in Hu. unfold inrange_b in Hr. rewrite forallb_forall in Hu, Hr.
+  rewrite Forall_forall. intros p Hp. specialize (Hu p Hp). specialize (Hr p Hp). lia.
+Qed.
+
+Lemma sumQ_zero_ext {B} : forall (L : list B) f, (forall x, In x L -> (f x == 0)%Q) -> (sumQ (map f L) == 0)%Q.
+Proof. intros L f H. rewrite (sumQ_ext L f (fun _ => 0%Q) H). apply sumQ_zero. Qed.
+
+(** C10/C11, cis-only: reading only the chromosome's own pixel range [bin1_offset lo, bin1_offset hi) gives the
+    same marginals on the chromosome's bins as reading the whole table *)
+Lemma cis_range_suffices : forall o chroms n lo hi v (px : list pixel) i,
+  o_cis o = true -> BlockSep chroms n lo hi -> good_px n px = true -> rows_sorted px ->
+  lo <= hi -> lo <= i < hi ->
+  (sumQ (map (pcontrib i (base_filters o chroms ++ [f_times v])) (slice px (bin1_offset px lo) (bin1_offset px hi)))
+   == sumQ (map (pcontrib i (base_filters o chroms ++ [f_times v])) px))%Q.
+Proof.
+  intros o chroms n lo hi v px i Hcis Hsep Hg Hs Hlh Hi.
+  set (fs := base_filters o chroms ++ [f_times v]).
+  set (plo := bin1_offset px lo). set (phi := bin1_offset px hi).
+  pose proof (bin1_offset_bounds px lo) as B1. pose proof (bin1_offset_bounds px hi) as B2.
+  pose proof (bin1_offset_mono px lo hi Hlh) as B3. fold plo phi in B1, B2, B3.
+  assert (E : px = slice px 0 plo ++ slice px plo phi ++ slice px phi (zlen px)).
+  { rewrite (slice_app px plo phi (zlen px)) by lia. rewrite (slice_app px 0 plo (zlen px)) by lia.
+    symmetry. apply slice_all. lia. }
+  rewrite E at 2. rewrite !map_app, !sumQ_app.
+  destruct (slice_prefix_rows px lo Hs) as [P1 _]. destruct (slice_prefix_rows px hi Hs) as [_ P2].
+  fold plo in P1. fold phi in P2.
+  pose proof (good_px_forall n px Hg) as Hgood. rewrite Forall_forall in Hgood.
+  assert (Z1 : (sumQ (map (pcontrib i fs) (slice px 0 plo)) == 0)%Q).
+  { apply sumQ_zero_ext. intros p Hp. rewrite P1 in Hp. apply filter_In in Hp. destruct Hp as [Hin Hr].
+    apply Z.ltb_lt in Hr. destruct (Hgood p Hin) as [G1 [G2 G3]].
+    apply (cis_contrib_outside o chroms n lo hi v p i); auto; lia. }
+  assert (Z2 : (sumQ (map (pcontrib i fs) (slice px phi (zlen px))) == 0)%Q).
+  { apply sumQ_zero_ext. intros p Hp. rewrite P2 in Hp. apply filter_In in Hp. destruct Hp as [Hin Hr].
+    apply negb_true_iff in Hr. apply Z.ltb_ge in Hr. destruct (Hgood p Hin) as [G1 [G2 G3]].
+    apply (cis_contrib_outside o chroms n lo hi v p i); auto; lia. }
+  rewrite Z1, Z2. ring.
+Qed.
+
+Lemma sum_pcontrib_rowsum : forall n fs (px : list pixel) b i,
+  Forall keyfix fs -> good_px n px = true -> 0 <= i < Z.of_nat n ->
+  (sumQ (map (pcontrib i (fs ++ [f_times b])) px) == rowsum (Fmat fs px) n b i)%Q.
+Proof.
+  intros n fs px b i Hk Hg Hi. unfold good_px in Hg. rewrite !andb_true_iff in Hg. destruct Hg as [[Hu Hr] _].
+  unfold Fmat. rewrite <- (marg_is_rowsum n b (filtered fs px) i (filtered_upper n fs px Hk Hu Hr) Hi).
+  rewrite marg_at_sum. unfold filtered. rewrite !map_map.
+  apply sumQ_ext. intros p _. unfold pcontrib. rewrite pipe1_app. reflexivity.
+Qed.
+
+Lemma cis_dat_zero_bf : forall o chroms a b x, o_cis o = true -> chrom_of chroms a <> chrom_of chroms b ->
+  (dat (pipe1 (base_filters o chroms) ((a, b), x)) == 0)%Q.
+Proof.
+  intros o chroms a b x Hcis Hne.
+  assert (E : f_zero_trans chroms ((a, b), x) = ((a, b), 0%Q)).
+  { unfold f_zero_trans, b1, b2. simpl. destruct (Z.eqb_spec (chrom_of chroms a) (chrom_of chroms b)); [contradiction | reflexivity]. }
+  unfold base_filters. rewrite Hcis.
+  destruct (o_diags o =? 0); unfold pipe1; simpl; rewrite E.
+  - reflexivity.
+  - unfold f_zero_diags, b1, b2. simpl. destruct (_ <? _); reflexivity.
+Qed.
+
+Lemma Fmat_cis_zero : forall o chroms n lo hi (px : list pixel) i j,
+  o_cis o = true -> BlockSep chroms n lo hi -> lo <= i < hi -> 0 <= j < Z.of_nat n -> ~ (lo <= j < hi) ->
+  (Fmat (base_filters o chroms) px i j == 0)%Q.
+Proof.
+  intros o chroms n lo hi px i j Hcis Hsep Hi Hj Hout. unfold Fmat, dense, filtered. rewrite map_map.
+  apply sumQ_zero_ext. intros p _. cbv beta.
+  pose proof (pipe1_keyfix _ (init1 p) (keyfix_base_filters o chroms)) as Hk.
+  assert (Hz : chrom_of chroms (row p) <> chrom_of chroms (col p) ->
+             (dat (pipe1 (base_filters o chroms) (init1 p)) == 0)%Q).
+  { intros Hne. destruct p as [[a b] x]. unfold init1, row, col in *. simpl in *. now apply cis_dat_zero_bf. }
+  remember (pipe1 (base_filters o chroms) (init1 p)) as w eqn:Ew.
+  assert (E1 : b1 w = row p) by (unfold b1; rewrite Hk; reflexivity).
+  assert (E2 : b2 w = col p) by (unfold b2; rewrite Hk; reflexivity).
+  rewrite E1, E2.
+  destruct (Z.eqb_spec (row p) (Z.min i j)) as [Hr|Hr]; simpl; [|reflexivity].
+  destruct (Z.eqb_spec (col p) (Z.max i j)) as [Hc|Hc]; simpl; [|reflexivity].
+  apply Hz. rewrite Hr, Hc.
+  destruct (Z.le_ge_cases i j) as [Hij|Hij].
+  - rewrite Z.min_l by lia. rewrite Z.max_r by lia. apply Hsep; lia.
+  - rewrite Z.min_r by lia. rewrite Z.max_l by lia.
+    intro Heq. symmetry in Heq. revert Heq. apply Hsep; lia.
+Qed.
+
+Lemma seq_add_map : forall k2 k1 s, seq (s + k1) k2 = map (fun t => (t + k1)%nat) (seq s k2).
+Proof. induction k2 as [|k2 IH]; intros k1 s; simpl; [reflexivity|]. f_equal. apply (IH k1 (S s)). Qed.
+
+Lemma zrange_app : forall a k1 k2, zrange a (k1 + k2) = zrange a k1 ++ zrange (a + Z.of_nat k1) k2.
+Proof.
+  intros a k1 k2. unfold zrange. rewrite seq_app, map_app. f_equal.
+  rewrite (seq_add_map k2 k1 0). rewrite map_map. apply map_ext. intros t. lia.
+Qed.
+
+Lemma qnth_splice : forall (full seg : list Q) lo hi t,
+  0 <= lo -> lo <= zlen full -> 0 <= t < zlen seg ->
+  qnth (splice full lo hi seg) (lo + t) = qnth seg t.
+Proof.
+  intros full seg lo hi t Hlo Hlf Ht. unfold qnth, splice, zlen in *.
+  assert (Lf : length (firstn (Z.to_nat lo) full) = Z.to_nat lo) by (rewrite firstn_length; lia).
+  rewrite app_nth2 by lia. rewrite Lf.
+  replace (Z.to_nat (lo + t) - Z.to_nat lo)%nat with (Z.to_nat t) by lia.
+  apply app_nth1. lia.
+Qed.
+
+Lemma length_splice : forall (full seg : list Q) lo hi,
+  0 <= lo <= hi -> hi <= zlen full -> zlen seg = hi - lo -> length (splice full lo hi seg) = length full.
+Proof.
+  intros full seg lo hi H1 H2 H3. unfold splice, zlen in *. rewrite !app_length, firstn_length, skipn_length. lia.
+Qed.
+
+Lemma nth_firstn_lt' {A} : forall (l : list A) m k d, (k < m)%nat -> nth k (firstn m l) d = nth k l d.
+Proof.
+  induction l as [|x l IH]; intros m k d H; [now rewrite firstn_nil|].
+  destruct m; [lia|]. destruct k; simpl; [reflexivity|]. apply IH. lia.
+Qed.
+
+Lemma nth_skipn' {A} : forall (l : list A) s k d, nth k (skipn s l) d = nth (s + k) l d.
+Proof.
+  induction l as [|x l IH]; intros s k d.
+  - rewrite skipn_nil. destruct k, (s + 0)%nat, s; reflexivity || (destruct (s + S k)%nat; reflexivity) || auto.
+    all: try (destruct (S n + S k)%nat; reflexivity). 
+  - destruct s; simpl; [reflexivity|]. apply IH.
+Qed.
+
+Lemma qnth_slice : forall (M : list Q) lo hi t, 0 <= lo -> 0 <= t < hi - lo -> qnth (slice M lo hi) t = qnth M (lo + t).
+Proof.
+  intros M lo hi t Hlo Ht. unfold qnth, slice.
+  rewrite nth_firstn_lt' by lia. rewrite nth_skipn'. f_equal. lia.
+Qed.
+
+Local Open Scope Q_scope.
+
+Lemma rowsum_block : forall (F : Z -> Z -> Q) (n : nat) (full seg : list Q) (lo hi i' : Z),
+  (0 <= lo)%Z -> (lo <= hi)%Z -> (hi <= Z.of_nat n)%Z -> length full = n -> zlen seg = (hi - lo)%Z ->
+  (forall j, (0 <= j < Z.of_nat n)%Z -> ~ (lo <= j < hi)%Z -> F (lo + i')%Z j == 0) ->
+  (0 <= i' < hi - lo)%Z ->
+  rowsum F n (splice full lo hi seg) (lo + i') ==
+  rowsum (fun a b => F (lo + a)%Z (lo + b)%Z) (Z.to_nat (hi - lo)) seg i'.
+Proof.
+  intros F n full seg lo hi i' H0 H1 H2 Hlf Hls Hz Hi. unfold rowsum.
+  rewrite (qnth_splice full seg lo hi i') by (unfold zlen in *; lia).
+  set (v := splice full lo hi seg).
+  set (L := Z.to_nat lo). set (m := Z.to_nat (hi - lo)). set (R := (n - Z.to_nat hi)%nat).
+  assert (En : n = (L + (m + R))%nat) by (unfold L, m, R; lia).
+  rewrite En at 1. rewrite !zrange_app, !map_app, !sumQ_app.
+  assert (Z1 : sumQ (map (fun j => F (lo + i')%Z j * qnth v j) (zrange 0 L)) == 0).
+  { apply sumQ_zero_ext. intros j Hj. apply in_zrange in Hj. rewrite Hz; [ring | lia | unfold L in Hj; lia]. }
+  assert (Z2 : sumQ (map (fun j => F (lo + i')%Z j * qnth v j) (zrange (0 + Z.of_nat L + Z.of_nat m) R)) == 0).
+  { apply sumQ_zero_ext. intros j Hj. unfold zrange in Hj. apply in_map_iff in Hj. destruct Hj as [t [<- Ht]].
+    apply in_seq in Ht. unfold L, m, R in *. rewrite Hz; [ring | lia | lia]. }
+  rewrite Z1, Z2.
+  assert (E : sumQ (map (fun j => F (lo + i')%Z j * qnth v j) (zrange (0 + Z.of_nat L) m)) ==
+              sumQ (map (fun j => F (lo + i')%Z (lo + j)%Z * qnth seg j) (zrange 0 m))).
+  { unfold zrange. rewrite !map_map. apply sumQ_ext. intros t Ht. apply in_seq in Ht.
+    replace (0 + Z.of_nat L + Z.of_nat t)%Z with (lo + (0 + Z.of_nat t))%Z by (unfold L; lia).
+    unfold v. rewrite qnth_splice by (unfold zlen, m in *; lia). reflexivity. }
+  rewrite E. ring.
+Qed.
+
+Theorem cis_margof : forall o chroms (n : nat) c lo hi (px : list pixel) (full : list Q),
+  o_cis o = true -> (1 <= c)%Z -> BlockSep chroms n lo hi -> good_px n px = true -> rows_sorted px ->
+  (0 <= lo)%Z -> (lo <= hi)%Z -> (hi <= Z.of_nat n)%Z -> length full = n ->
+  forall seg, length seg = Z.to_nat (hi - lo) ->
+    MargOf (fun a b => Fmat (base_filters o chroms) px (lo + a) (lo + b)) (Z.to_nat (hi - lo))
+           (margf_cis n c (base_filters o chroms) px full lo hi seg) seg.
+Proof.
+  intros o chroms n c lo hi px full Hcis Hc Hsep Hg Hs H0 H1 H2 Hlf seg Hls.
+  unfold margf_cis. set (bf := base_filters o chroms).
+  set (v := splice full lo hi seg).
+  set (M := marg_of n (partition (bin1_offset px lo) (bin1_offset px hi) c) (bf ++ [f_times v]) px).
+  assert (LM : length M = n) by apply length_marg_of.
+  split.
+  - unfold slice. rewrite firstn_length, skipn_length. lia.
+  - intros i' Hi. unfold InR in Hi.
+    rewrite qnth_slice by lia.
+    assert (Hi2 : (0 <= lo + i' < Z.of_nat n)%Z) by lia.
+    unfold M, marg_of.
+    pose proof (bin1_offset_bounds px lo) as B1. pose proof (bin1_offset_mono px lo hi H1) as B3.
+    rewrite (marg_schedule_invariant_sub n _ (bf ++ [f_times v]) px
+               (slice px (bin1_offset px lo) (bin1_offset px hi)) _ (lo + i')
+               (partition_exact_cover px _ _ c Hc (conj (proj1 B1) B3)) (Permutation_refl _) Hi2).
+    unfold bf. rewrite (cis_range_suffices o chroms n lo hi v px (lo + i')) by (auto; lia).
+    rewrite (sum_pcontrib_rowsum n _ px v (lo + i') (keyfix_base_filters o chroms) Hg Hi2).
+    unfold v. apply rowsum_block; auto; try lia.
+    + unfold zlen. lia.
+    + intros j Hj Hout. apply (Fmat_cis_zero o chroms n lo hi px); auto. lia.
+Qed.
+
+(** ** cis-only mode of the model, one chromosome [lo, hi): the loop runs on the chromosome's own sub-matrix
+    Fc(a, b) = F(lo + a, lo + b), whatever the current weights [full] of the other chromosomes are *)
+Section CisOnly.
+  Variables (o : opts) (chroms : list Z) (n : nat) (c lo hi : Z) (px : list pixel).
+  Hypothesis Hcis : o_cis o = true.
+  Hypothesis Hc : (1 <= c)%Z.
+  Hypothesis Hsep : BlockSep chroms n lo hi.
+  Hypothesis Hg : good_px n px = true.
+  Hypothesis Hs : rows_sorted px.
+  Hypothesis H0 : (0 <= lo)%Z.
+  Hypothesis H1 : (lo <= hi)%Z.
+  Hypothesis H2 : (hi <= Z.of_nat n)%Z.
+  Let m := Z.to_nat (hi - lo).
+  Let Fc := fun a b => Fmat (base_filters o chroms) px (lo + a) (lo + b).
+
+  Lemma Fc_sym : forall i j, Fc i j == Fc j i.
+  Proof. intros. unfold Fc. apply Fmat_sym. Qed.
+  Lemma Fc_nonneg : forall i j, 0 <= Fc i j.
+  Proof. intros. unfold Fc. apply (Fmat_nonneg n); [apply datnn_base_filters | assumption]. Qed.
+
+  Theorem cis_nan_set : forall full tol fuel seg bb s v k i,
+    length full = n -> length seg = m -> NonNeg seg ->
+    ic_loop (margf_cis n c (base_filters o chroms) px full lo hi) tol fuel seg = Some (bb, s, v, k) -> InR m i ->
+    (onth (mark_nan s bb) i = None <-> AllZero Fc m seg \/ qnth seg i == 0) /\
+    (forall x, onth (mark_nan s bb) i = Some x -> 0 < x /\ x = qnth bb i).
+  Proof.
+    intros full tol fuel seg bb s v k i Hlf Hls Hn Hloop Hi.
+    apply (nan_set Fc m Fc_nonneg (margf_cis n c (base_filters o chroms) px full lo hi)
+             (fun b Hb => cis_margof o chroms n c lo hi px full Hcis Hc Hsep Hg Hs H0 H1 H2 Hlf b Hb)
+             tol fuel seg bb s v k i Hls Hn Hloop Hi).
+  Qed.
+
+  Theorem cis_flatness : forall full tol fuel seg bb mu v k eps i,
+    length full = n -> length seg = m -> NonNeg seg ->
+    ic_loop (margf_cis n c (base_filters o chroms) px full lo hi) tol fuel seg = Some (bb, Some mu, v, k) ->
+    v < tol -> 0 <= eps -> eps < 1 -> nnz_rows Fc m seg * tol <= eps * eps * mu * mu ->
+    InR m i -> ~ rowsum Fc m seg i == 0 ->
+    mu / (1 + eps) <= rowsum Fc m bb i /\ rowsum Fc m bb i <= mu / (1 - eps).
+  Proof.
+    intros full tol fuel seg bb mu v k eps i Hlf Hls Hn Hloop Hv He0 He1 HN Hi Hnz.
+    exact (loop_flatness Fc m Fc_sym Fc_nonneg (margf_cis n c (base_filters o chroms) px full lo hi)
+             (fun b Hb => cis_margof o chroms n c lo hi px full Hcis Hc Hsep Hg Hs H0 H1 H2 Hlf b Hb)
+             tol fuel seg bb mu v k eps i Hls Hn Hloop Hv He0 He1 HN Hi Hnz).
+  Qed.
+
+  Theorem cis_flatness_rescaled : forall full tol fuel seg bb mu v k eps i (w : list Q),
+    length full = n -> length seg = m -> NonNeg seg ->
+    ic_loop (margf_cis n c (base_filters o chroms) px full lo hi) tol fuel seg = Some (bb, Some mu, v, k) ->
+    v < tol -> 0 <= eps -> eps < 1 -> nnz_rows Fc m seg * tol <= eps * eps * mu * mu ->
+    (forall j, 0 <= qnth w j /\ qnth w j * qnth w j * mu == qnth bb j * qnth bb j) ->
+    InR m i -> ~ rowsum Fc m seg i == 0 ->
+    1 / (1 + eps) <= rowsum Fc m w i /\ rowsum Fc m w i <= 1 / (1 - eps).
+  Proof.
+    intros full tol fuel seg bb mu v k eps i w Hlf Hls Hn Hloop Hv He0 He1 HN Hw Hi Hnz.
+    exact (loop_flatness_rescaled Fc m Fc_sym Fc_nonneg (margf_cis n c (base_filters o chroms) px full lo hi)
+             (fun b Hb => cis_margof o chroms n c lo hi px full Hcis Hc Hsep Hg Hs H0 H1 H2 Hlf b Hb)
+             tol fuel seg bb mu v k eps i w Hls Hn Hloop Hv He0 He1 HN Hw Hi Hnz).
+  Qed.
+End CisOnly.
+
+Lemma ic_loop_length : forall (margf : list Q -> list Q) tol (m : nat),
+  (forall b, length b = m -> length (margf b) = m) ->
+  forall fuel b bb s v k, length b = m -> ic_loop margf tol fuel b = Some (bb, s, v, k) -> length bb = m.
+Proof.
+  intros margf tol m Hm. induction fuel as [|f IHf]; intros b bb s v k Lb E; [discriminate|]. simpl in E.
+  destruct (ic_update (margf b) b) as [[[b' var] mu]|] eqn:Eu.
+  - assert (Lb' : length b' = m).
+    { unfold ic_update in Eu. destruct (nzs _); [discriminate|]. injection Eu as <- _ _.
+      rewrite map_length, combine_length, (Hm b Lb). lia. }
+    destruct (Qltb var tol); [injection E as <- _ _ _; exact Lb'|].
+    destruct (ic_loop margf tol f b') as [[[[bb2 s2] v2] k2]|] eqn:E3.
+    + injection E as <- _ _ _. apply (IHf b' bb2 s2 v2 k2 Lb' E3).
+    + injection E as <- _ _ _. exact Lb'.
+  - injection E as <- _ _ _. exact Lb.
+Qed.
+
+(** the sequential per-chromosome driver: every reported chromosome result is the outcome of the loop of that
+    chromosome started from its own slice of some full weight vector of length n *)
+Theorem cis_loop_spec : forall o (n : nat) c bf px ranges full rs,
+  length full = n ->
+  Forall (fun lohi => (0 <= fst lohi)%Z /\ (fst lohi <= snd lohi)%Z /\ (snd lohi <= Z.of_nat n)%Z) ranges ->
+  (forall lo hi full' seg, length full' = n -> length seg = Z.to_nat (hi - lo) -> In (lo, hi) ranges ->
+      length (margf_cis n c bf px full' lo hi seg) = Z.to_nat (hi - lo)) ->
+  cis_loop o n c bf px full ranges = Some rs ->
+  Forall2 (fun lohi r => exists full' bb s v k,
+             length full' = n /\
+             ic_loop (margf_cis n c bf px full' (fst lohi) (snd lohi)) (o_tol o) (o_iters o)
+                     (slice full' (fst lohi) (snd lohi)) = Some (bb, s, v, k) /\
+             c_bias r = mark_nan s bb /\ c_scale r = s /\ c_var r = v /\ c_iters r = k) ranges rs.
+Proof.
+  intros o n c bf px ranges. induction ranges as [|[lo hi] rest IH]; intros full rs Hlf Hr Hlen Hloop; simpl in Hloop.
+  - inversion Hloop. constructor.
+  - inversion_clear Hr as [|? ? [A0 [A1 A2]] Hr']. simpl in A0, A1, A2.
+    destruct (ic_loop (margf_cis n c bf px full lo hi) (o_tol o) (o_iters o) (slice full lo hi))
+      as [[[[seg s] v] k]|] eqn:E; [|discriminate].
+    destruct (cis_loop o n c bf px (splice full lo hi seg) rest) as [rs'|] eqn:E2; [|discriminate].
+    injection Hloop as <-. constructor.
+    + exists full, seg, s, v, k. simpl. repeat split; auto.
+    + apply (IH (splice full lo hi seg)); auto.
+      * (* the loop keeps the length of the segment *)
+        assert (Lseg : length seg = Z.to_nat (hi - lo)).
+        { apply (ic_loop_length (margf_cis n c bf px full lo hi) (o_tol o) (Z.to_nat (hi - lo))) with
+            (fuel := o_iters o) (b := slice full lo hi) (s := s) (v := v) (k := k); auto.
+          - intros b Hb. apply Hlen; auto. now left.
+          - unfold slice. rewrite firstn_length, skipn_length. lia. }
+        rewrite length_splice; unfold zlen; lia.
+      * intros lo' hi' full' seg' Hf' Hs' Hin. apply Hlen; auto. now right.
 Qed.
